@@ -45,4 +45,12 @@ def parCollectResult {β : Type} : Split → List (Res β) → Res (List β)
     | .error e, _ => .error e
     | .ok _, .error e => .error e
 
+/-- `xs.par().fold(init, step).reduce(op)` under the schedule `s`: rayon calls `init` once PER PIECE.
+    (The library only uses `map`/`enumerate`/`collect`/`unzip`; this is here because the natural
+    "optimisation" of the product loops in `gen_proof_ext` / `check_proof` is a fold + reduce.) -/
+def parFold {α β : Type} : Split → β → (β → α → β) → (β → β → β) → List α → β
+  | .leaf, init, step, _, xs => xs.foldl step init
+  | .node k l r, init, step, op, xs =>
+    op (parFold l init step op (xs.take k)) (parFold r init step op (xs.drop k))
+
 end Strand
